@@ -422,6 +422,18 @@ func init() {
 					judgeCall(c, long, "at", []model.Value{model.Int(n - 1)})
 					judgeCall(c, long, "last", nil)
 				}})
+			// counts whose product with the byte length of the receiver wraps around 2^64
+			secs = append(secs, core.Section{Name: "wrapping-products", Exhaustive: true, N: len(stringsOfByteLength),
+				Run: func(c *core.Ctx, i int) {
+					recv := model.Str(stringsOfByteLength[i])
+					for _, n := range wrappingCounts(len(recv.S)) {
+						judgeCall(c, recv, "repeat", []model.Value{model.Int(n)})
+						judgeCall(c, model.Int(5), "decimal", []model.Value{recv, model.Int(n)})
+						judgeCall(c, recv, "truncate", []model.Value{model.Int(n), recv})
+						judgeCall(c, recv, "at", []model.Value{model.Int(n)})
+						judgeCall(c, model.Arr(recv, recv), "slice", []model.Value{model.Int(0), model.Int(n)})
+					}
+				}})
 			// contains is structural equality: values that print alike but differ in structure or kind
 			type cpair struct{ recv, arg model.Value }
 			i1, i2 := model.Int(1), model.Int(2)
